@@ -107,6 +107,9 @@ structure Inv where
   uid : Nat
   /-- ghost: what the callback returned -/
   ret : Bool
+  /-- ghost: the item's `last_stamp` and `period` as the loop read them (timed classes) -/
+  last : Nat := 0
+  period : Nat := 0
   deriving DecidableEq, Repr
 
 structure Conn where
@@ -244,7 +247,8 @@ def invoke (beh : Beh) (st : St) (cls : Cls) (c : Nat) (it : Item) (name : Optio
   let step := beh it.key (st.cnt it.key)
   let st1 := { st with cnt := bump st.cnt it.key,
                        log := st.log ++ [{ cls, conn := c, fn := it.fn, ud := it.ud, name, time := st.now,
-                                           uid := it.uid, ret := step.keep }] }
+                                           uid := it.uid, ret := step.keep, last := it.last,
+                                           period := it.period }] }
   (applyActs st1 step.acts, step.keep)
 
 /-! ### `handler_fire_stanza` -/
